@@ -344,7 +344,42 @@ def run_inprocess(case):
           viol.append({'mechanism': 'destination-differs-from-serialization',
                        'detail': dict(ctx, verdict=verdict, found=detail,
                                       files=os.listdir(work))})
-    leftovers = [f for f in os.listdir(work) if f not in (expect_name, 'stage')
+    if fired and fault[0] in ('ser', 'write', 'close', 'move', 'real_serializer'):
+      # the same callback object publishes the next record: exactly that record
+      cbmod.shutil.move = real_move
+      fault2, fault[:] = list(fault), ['none']
+      FaultyAtomic.nwrites = 0
+      rec2 = make_record(1, dut='DUT-next')
+      if case['w'] == 'pickle':
+        want2 = pickle.dumps(rec2, -1)
+      else:
+        buf2 = io.BytesIO()
+        base(buf2, sort_keys=True)(rec2)
+        want2 = buf2.getvalue()
+      name2 = {
+          'brace': '%s.%s.out' % (rec2.dut_id, rec2.metadata['test_name']),
+          'percent': '%s.%s.out' % (rec2.dut_id, rec2.outcome.name),
+          'callable': 'cb-%s.out' % rec2.dut_id,
+          'nested': '%s-%s-%s.out' % (rec2.station_id, rec2.dut_id,
+                                      rec2.start_time_millis),
+      }[case.get('pattern', 'brace')]
+      dest2 = os.path.join(work, name2)
+      try:
+        cb(rec2)
+        err2 = None
+      except BaseException as e:  # pylint: disable=broad-except
+        err2 = type(e).__name__
+      fault[:] = fault2
+      c['successes_compared'] += 1
+      v2, d2 = classify_dest(dest2, 'absent', want2)
+      if err2 or v2 != 'new':
+        viol.append({'mechanism': 'publish-after-a-failed-publish-differs',
+                     'detail': dict(ctx, raised_next=err2, verdict=v2, found=d2)})
+      expect_name2 = name2
+    else:
+      expect_name2 = None
+    leftovers = [f for f in os.listdir(work) if f not in (expect_name, 'stage',
+                                                          expect_name2)
                  and not f.endswith('.out')]
     if leftovers:
       viol.append({'mechanism': 'unexpected-files-beside-destination',
